@@ -2,6 +2,7 @@
 package dkgnet
 
 import (
+	"strings"
 	"bytes"
 	"context"
 	"errors"
@@ -35,6 +36,7 @@ type Msg struct {
 	Raw      []byte // marshalled protobuf (for C15 scanning)
 	Err      string
 	Gossip   *pdkg.GossipPacket
+	delay    time.Duration
 }
 
 // Policy decides what happens to a message (called in the delivering goroutine).
@@ -58,6 +60,10 @@ type Bus struct {
 	KeepRaw bool
 	Policy  Policy
 	failed  map[string]bool
+	// AsyncBundles makes a delayed DKG bundle travel on its own: the sender's call returns at once and the bundle reaches the
+	// receiver after the delay. Without it the delay is spent inside the sender's call, and drand sends to one peer sequentially,
+	// so a link delay of d holds back the k-th queued bundle by k*d (a model of a peer that acknowledges slowly, not of latency).
+	AsyncBundles bool
 	// InFlight counts calls that are being delivered right now.
 	InFlight atomic.Int64
 	// MaxBundleLatencyNs is the longest time a DKG bundle took from the sender's call to the end of its processing by the
@@ -263,7 +269,11 @@ func (c *client) pre(m *Msg) (*dkg.Process, error) {
 	}
 	if pol.Delay != nil {
 		if d := pol.Delay(m); d > 0 {
-			time.Sleep(d)
+			if c.b.AsyncBundles && strings.HasPrefix(m.Kind, "dkg:") {
+				m.delay = d // delivered later by the caller, without holding up the sender
+			} else {
+				time.Sleep(d)
+			}
 		}
 	}
 	return proc, nil
@@ -317,14 +327,35 @@ func (c *client) BroadcastDKG(ctx context.Context, p dnet.Peer, in *pdkg.DKGPack
 		return nil, err
 	}
 	cp := proto.Clone(in).(*pdkg.DKGPacket)
-	resp, err := target.BroadcastDKG(context.Background(), cp)
-	if err != nil {
-		m.Err = err.Error()
+	deliver := func() (*pdkg.EmptyDKGResponse, error) {
+		resp, err := target.BroadcastDKG(context.Background(), cp)
+		if err != nil {
+			m.Err = err.Error()
+		}
+		if pol := c.b.Policy; pol.Dup != nil && pol.Dup(m) {
+			_, _ = target.BroadcastDKG(context.Background(), proto.Clone(in).(*pdkg.DKGPacket))
+		}
+		return resp, err
 	}
-	if pol := c.b.Policy; pol.Dup != nil && pol.Dup(m) {
-		_, _ = target.BroadcastDKG(context.Background(), proto.Clone(in).(*pdkg.DKGPacket))
+	if m.delay > 0 {
+		c.b.InFlight.Add(1)
+		go func() {
+			defer c.b.InFlight.Add(-1)
+			time.Sleep(m.delay)
+			_, _ = deliver()
+			lat := int64(time.Since(t0))
+			c.b.mu.Lock()
+			if c.b.bundleLat == nil {
+				c.b.bundleLat = map[string]int64{}
+			}
+			if lat > c.b.bundleLat[c.from.Addr] {
+				c.b.bundleLat[c.from.Addr] = lat
+			}
+			c.b.mu.Unlock()
+		}()
+		return &pdkg.EmptyDKGResponse{}, nil
 	}
-	return resp, err
+	return deliver()
 }
 
 // safePacket delivers a packet the way the daemon's gRPC server does: a panic in the handler is contained and reported to the
